@@ -46,7 +46,7 @@ class REnum(object):
 
     def __init__(self, name, members):
         self.name = name
-        self.members = [(n, v) for n, v in members]
+        self.members = [(m[0], m[1]) for m in members]
         self.by_name = dict(self.members)
         self.by_value = {}
         for n, v in self.members:
@@ -194,7 +194,7 @@ class Resolved(object):
                 self.consts[d["name"]] = d["value"]
             elif k == "enum":
                 self.types[d["name"]] = REnum(d["name"], d["members"])
-                for n, v in d["members"]:
+                for n, v in [(m[0], m[1]) for m in d["members"]]:
                     self.consts[n] = v
                 self.order.append(d["name"])
             elif k == "typedef":
